@@ -20,7 +20,7 @@ RULE = ("configurations from the lattice 16 flag combinations x velocity bins {1
         "A configuration is non-trivial when its whole vocabulary was enumerated; distinct by parameters.")
 PLAN = {"quick": {"cases": 320, "jobs": 4, "timeout": 900},
         "thorough": {"cases": 17000, "jobs": 16, "timeout": 3000, "budget_s": 420}}
-FLOORS = {"quick": {"c02.tokens_enumerated": 300000, "tokenise.closure.armed": 600, "#c02.flags.": 16, "c02.configurations": 280},
+FLOORS = {"quick": {"c02.tokens_enumerated": 250000, "tokenise.closure.armed": 600, "#c02.flags.": 16, "c02.configurations": 280},
           "thorough": {"c02.tokens_enumerated": 10000000, "#c02.flags.": 16}}
 
 
